@@ -964,6 +964,19 @@ class Inliner:
         # compound statements: recurse first
         if isinstance(s, (ast.If, ast.For, ast.AsyncFor, ast.While, ast.Try, ast.With, ast.AsyncWith)) or hasattr(s, "cases"):
             self.rewrite_block_owner(s, fi, names, depth)
+        # for x in <new helper>(...):  the iterable is computed once, before the loop: through a temporary, so that the helper is
+        # written out like any `t = helper(...)`
+        if isinstance(s, ast.For) and isinstance(s.iter, ast.Call) and depth < MAX_DEPTH:
+            r = self.resolve(s.iter, fi)
+            if r is not None and not _has_yield(r[0].node):
+                self.counter += 1
+                nm = "iter__f%d" % self.counter
+                asg = ast.copy_location(ast.Assign(targets=[ast.Name(id=nm, ctx=ast.Store())], value=s.iter), s)
+                ast.fix_missing_locations(asg)
+                pre = self.rewrite_stmt(asg, fi, names | {nm}, depth + 1)
+                if not (len(pre) == 1 and pre[0] is asg):
+                    s.iter = ast.copy_location(ast.Name(id=nm, ctx=ast.Load()), s.iter)
+                    return pre + [s]
         # with <new context-manager CLASS>(...) as v:  ->  fields bound, __enter__ body, try: BODY finally: __exit__ body
         if isinstance(s, ast.With) and len(s.items) == 1 and isinstance(s.items[0].context_expr, ast.Call):
             out = self._expand_cm_class(s, fi, names, depth)
@@ -1214,6 +1227,9 @@ def flatten(repo) -> Optional[Inliner]:
         if ast.dump(fi.node) != before:
             ast.fix_missing_locations(fi.node)
             changed_modules.add(fi.module.name)
+    # a NEW read-only property of a class (one `return <expr>`), read through self in the methods of that class: the expression
+    if _expand_self_properties(inl, repo, changed_modules):
+        pass
     # instances of new classes that never leave the function: their fields become locals
     for fi in list(repo.all_funcs()):
         if fi.parent is not None:
@@ -1264,6 +1280,65 @@ def flatten(repo) -> Optional[Inliner]:
 def _is_property(fn_node) -> bool:
     return any((isinstance(d, ast.Name) and d.id in ("property", "cached_property")) or (isinstance(d, ast.Attribute) and d.attr in ("cached_property",))
                for d in getattr(fn_node, "decorator_list", []))
+
+
+def _expand_self_properties(inl, repo, changed_modules) -> bool:
+    """`self.p` in the methods of class C (and of subclasses that do not define p), p a property of C that is new w.r.t. the
+    inventory, read-only, and whose body is one `return <expr>` without calls: the expression with the property's self := the
+    method's self.  (A property is evaluated at every read; an expression without calls gives the same value written in place.)"""
+    changed = False
+    new_quals = {f.qual for f in inl.new}
+    for m in repo.modules.values():
+        for c in m.all_classes():
+            props = {}
+            for name, meth in c.methods.items():
+                if meth.qual not in new_quals or len(meth.node.decorator_list) != 1:
+                    continue
+                d = meth.node.decorator_list[0]
+                if not (isinstance(d, ast.Name) and d.id == "property") or len(meth.node.args.args) != 1:
+                    continue
+                body = _strip_doc_local(meth.node.body)
+                if len(body) != 1 or not isinstance(body[0], ast.Return) or body[0].value is None:
+                    continue
+                if any(isinstance(x, (ast.Call, ast.Lambda, ast.ListComp, ast.SetComp, ast.DictComp, ast.GeneratorExp, ast.NamedExpr, ast.Await, ast.Yield))
+                       for x in ast.walk(body[0].value)):
+                    continue
+                if any(isinstance(dd, ast.Attribute) and isinstance(dd.value, ast.Name) and dd.value.id == name
+                       for o in c.node.body if isinstance(o, FUNC) for dd in o.decorator_list):
+                    continue   # has a setter / deleter
+                props[name] = (body[0].value, meth.node.args.args[0].arg)
+            if not props:
+                continue
+            hosts = [c] + [sc for sc in repo.subclasses(c) if not any(p_ in sc.methods for p_ in props)]
+            for hc in hosts:
+                for hm in hc.methods.values():
+                    if hm.name in props or not hm.node.args.args:
+                        continue
+                    if any(isinstance(dd, ast.Name) and dd.id in ("staticmethod", "classmethod") for dd in hm.node.decorator_list):
+                        continue
+                    selfname = hm.node.args.args[0].arg
+
+                    class P(ast.NodeTransformer):
+                        hit = False
+
+                        def visit_Attribute(self_, a):
+                            self_.generic_visit(a)
+                            if isinstance(a.ctx, ast.Load) and isinstance(a.value, ast.Name) and a.value.id == selfname and a.attr in props:
+                                (e, ps) = props[a.attr]
+                                P.hit = True
+                                return ast.copy_location(_Subst({}, {ps: ast.Name(id=selfname, ctx=ast.Load())}).visit(copy.deepcopy(e)), a)
+                            return a
+                    for _round in range(3):
+                        P.hit = False
+                        hm.node.body = [P().visit(st) for st in hm.node.body]
+                        if not P.hit:
+                            break
+                        changed = True
+                        changed_modules.add(hc.module.name if hasattr(hc, "module") else m.name)
+                        ast.fix_missing_locations(hm.node)
+            if changed:
+                inl.log.append("%s: new properties %s read through self written out" % (c.qual, sorted(props)))
+    return changed
 
 
 def _expand_properties(inl, fi) -> bool:
